@@ -5,10 +5,11 @@ from checklib.core import enc, run_pair, tok_to_float
 from props._conj import PAIRS, op, data_tok, datasets
 
 ID = 'C06'
-LEAN_DEPS = ['RvModel.Lemmas.C06']
+LEAN_DEPS = ['RvModel.Lemmas.C06', 'RvModel.Hand.StickConj', 'RvModel.Lemmas.C05S', 'RvModel.Hand.DispatchAll']
 TRUSTED = ['the identities are stated among generated functions only (no Spec): chain rule, ln_m([]) = 0, permutation, cached = uncached']
 ASSUMPTIONS = ['Gen.ln_fact is opaque in the Gamma-Poisson chain rule (exact up to ln_fact(y) - lnGamma(y+1), see C14)',
                'Student-t and Dirichlet normalisation integrals are not in Mathlib: predictive normalisation of the Gaussian pairs is partial']
+EXTRA_PROPS = ['RvModel/Props/C05S.lean']     # the StickBreaking theorems live in one file shared with C05
 N_GEN = {'quick': 6, 'thorough': 80}
 METHODS = ('ln_m', 'ln_m_cache', 'ln_m_with_cache', 'ln_pp', 'ln_pp_cache', 'ln_pp_with_cache', 'm', 'pp', 'pp_with_cache')
 
@@ -18,10 +19,23 @@ def gen_ops(man):
 
 
 def extra_run(man, tier, seed):
+    out = extra_run_pairs(man, tier, seed)
+    from props import _stick
+    st = _stick.stick_extra('C06', tier, seed)
+    out['obligations'] = out.get('obligations', []) + st['obligations']
+    out['failures'] += st['failures']
+    for k_, v_ in st['stats'].items():
+        out['stats'][k_] = out['stats'].get(k_, 0) + v_
+    out['samples'] = out.get('samples', []) + st['samples'][:2]
+    return out
+
+
+def extra_run_pairs(man, tier, seed):
     rng = random.Random(seed * 23 + 11)
     nsets = 12 if tier == 'quick' else 300
     structs = man['structs']
     lines, meta = [], []
+    pvs = {}
     for prior, lik, kind, suf, obs, stat in PAIRS:
         lnm, lnpp = op(prior, 'ln_m', suf, lik), op(prior, 'ln_pp', suf, lik)
         if lnm not in man['defs'] or lnpp not in man['defs']:
@@ -36,6 +50,7 @@ def extra_run(man, tier, seed):
                           f'{lnpp} {kind} {enc(pv)} {enc(y)} {data_tok(xs)}', f'{lnm} {kind} {enc(pv)} {data_tok(ys)}',
                           f'{lnm} {kind} {enc(pv)} {data_tok([])}']
                 meta.append((prior, base, xs, y))
+                pvs[base] = pv
     impl, _ = run_pair(lines, want_model=False)
     failures = []
     for prior, b, xs, y in meta:
@@ -53,11 +68,16 @@ def extra_run(man, tier, seed):
         if not (abs(m_perm - m_x) <= 1e-9 * scale):
             failures.append({'site': f'{prior}.ln_m', 'case': lines[b + 3], 'impl': repr(m_perm), 'expected': repr(m_x), 'observed': 'value',
                              'detail': 'permutation invariance'})
-        if not (abs(m_empty) <= 1e-9):
+        # "zero" up to the rounding of the normaliser's own terms: ln_m(no data) is ln_z(posterior) - ln_z(prior) with the
+        # general update evaluated at n = 0 (cancelling terms like m^2/v) and multiplied by the shape, so the slack scales
+        # with products of the hyper-parameters (same rule as C05's "posterior of no data = prior")
+        mag = sum(abs(float(v)) for v in (pvs[b] if isinstance(pvs[b], (list, tuple)) else [pvs[b]])
+                  if isinstance(v, (int, float)) and not isinstance(v, bool)) + 1.0
+        if not (abs(m_empty) <= 1e-9 + 1e-15 * mag ** 3):
             failures.append({'site': f'{prior}.ln_m', 'case': lines[b + 4], 'impl': repr(m_empty), 'expected': '0', 'observed': 'value',
                              'detail': 'ln_m of no data'})
     return {'obligations': [], 'failures': failures, 'stats': {'evaluations': len(lines), 'distinct_nontrivial': len(set(lines))},
             'samples': lines[:3]}
 
 
-INPUT_CLASSES = {'ln_fact_stirling': lambda f: bool(f.get('ln_fact_stirling'))}
+INPUT_CLASSES = {'sb_both_arm_underflow': (lambda f: f.get('cls') == 'sb_both_arm_underflow'), 'ln_fact_stirling': lambda f: bool(f.get('ln_fact_stirling'))}
